@@ -1178,6 +1178,20 @@ theorem Inv_applyOp (s : St) (o : Op) (h : Inv s) : Inv (applyOp s o).1 := by
     · split
       · exact h
       · exact Inv_unsealNs s h ns now
+  | nsDelete ns =>
+    simp only [applyOp, nsDelete]
+    split
+    · exact h
+    · have : ∀ (ls : List Lease) (s : St), Inv s →
+          Inv (ls.foldl (fun s l => untrack (delLease (backendRevoke s l.id).2 l.id) l.id) s) := by
+        intro ls
+        induction ls with
+        | nil => intro s hs; exact hs
+        | cons a t ih =>
+          intro s hs
+          simp only [List.foldl_cons]
+          exact ih _ (Inv_delete _ (Inv_backendRevoke s a.id hs) a.id)
+      exact this _ s h
   | sealNs ns => exact Inv_sealNs s h ns
   | unsealNs ns now => exact Inv_unsealNs s h ns now
   | unsealBegin ns hh now => exact Inv_unsealBegin s h ns hh now
